@@ -693,13 +693,19 @@ def discovered_state(ctx, pkg, rule="R3"):
         for n in ast.walk(pkg.modules[f]):
             if isinstance(n, ast.ClassDef):
                 a = set()
+                i = inst.setdefault(n.name, set())
+                # the annotated fields of a dataclass / NamedTuple are set on every INSTANCE by the generated constructor (a mutable
+                # default must be a default_factory: one object per instance); a bare annotation `x: T` binds nothing at class level
+                record = any("dataclass" in ast.unparse(d) for d in n.decorator_list) or any(ast.unparse(b).split(".")[-1] == "NamedTuple" for b in n.bases)
                 for st in n.body:
                     if isinstance(st, ast.Assign):
                         a |= {t.id for t in st.targets if isinstance(t, ast.Name)}
                     elif isinstance(st, ast.AnnAssign) and isinstance(st.target, ast.Name):
-                        a.add(st.target.id)
+                        if record and "ClassVar" not in ast.unparse(st.annotation):
+                            i.add(st.target.id)
+                        elif st.value is not None:
+                            a.add(st.target.id)
                 classattrs.setdefault(n.name, set()).update(a)
-                i = inst.setdefault(n.name, set())
                 for m in ast.walk(n):
                     if isinstance(m, (ast.Assign, ast.AugAssign, ast.AnnAssign)):
                         for t in (m.targets if isinstance(m, ast.Assign) else [m.target]):
